@@ -14,7 +14,10 @@ Definition cfg (pm : bool) (dpr : list Q) (ref slope vm vs ext maxl pad eol cin 
 Definition la (n : string) (multi ram allowed : bool) (fmin fmax gmin gmax pmax : Q) (voa_auto : bool) : amp :=
   mkAmp n multi ram allowed fmin fmax gmin gmax pmax voa_auto.
 Definition sq (q : Q) : option Q := Some q.
-Definition rf (lin : Q) (cin cout : option Q) (att : Q) (lc : list Q) : relem := RFib (mkRF lin cin cout att lc).
+Definition rf (lin : Q) (cin cout : option Q) (att : Q) (lc : list Q) : relem := RFib (mkRF lin cin cout att lc None).
+(* a RamanFiber with its two gain estimates (reference power / designed power) *)
+Definition rrf (lin : Q) (cin cout : option Q) (att : Q) (lc : list Q) (gref gcached : Q) : relem :=
+  RFib (mkRF lin cin cout att lc (Some (gref, gcached))).
 Definition rfu (l : Q) : relem := RFus l.
 Definition ra (variety : string) (vlist : list string) (gain dp ovoa ivoa : option Q) (nfs : list (string * Q)) : relem :=
   RAmp (mkAN (mkNode variety vlist) gain dp ovoa ivoa nfs).
